@@ -20,6 +20,10 @@ import RV.Base.Proto
         positions: ?k variable | term number;  cells: term number | U
     clear|drop S DEFAULT|NAMED|ALL|GRAPH g
     add|move|copy S src dst                          -> ok | error | skipped   (skipped = request already failed)
+    create S g                                       CREATE [SILENT] GRAPH g
+    load S R into nt (s p o)…                        LOAD [SILENT] <source> [INTO GRAPH into]  (into = 0: default graph);
+                                                     R = 0: the source cannot be read (nt = 0), R = 1: its nt triples
+                                                     (30…39 / 50…59 = blank-node labels of the document)
     tabrel b r n | tabns b r ns | tabpn ns l n        -> ok   (what written names denote; harness-owned)
     base b | prefix p ns | prefixrel p r               -> ok   (declarations before the next operation)
     (inside operations an IRI may be written  @r.<ref>  or  @p.<prefix>.<local>: resolved with the prologue in force)
@@ -331,6 +335,23 @@ def parseOp (c : Cfg) : List String → Option WOp
     let ns ← nats? ws
     (parseModify ns).map WOp.modify
   | "modifyalg" :: ws => (parseModifyAlg ws).map WOp.modify
+  | ["create", s, g] => do
+    let g ← g.toNat?.bind gName?
+    match g with
+    | some n => pure (WOp.other (Op.create (← bool? s) n))
+    | none => none
+  | "load" :: s :: r :: into :: rest => do
+    let s ← bool? s
+    let r ← bool? r
+    let into ← into.toNat?.bind gName?
+    let ns ← nats? rest
+    match ns with
+    | nt :: ts =>
+      let (doc, left) ← takeTriples nt ts
+      if !left.isEmpty then none
+      else if r then pure (WOp.other (Op.load c.single s (some doc) into))
+      else if nt = 0 then pure (WOp.other (Op.load c.single s none into)) else none
+    | [] => none
   | "clear" :: s :: t => do pure (WOp.other (Op.clear (← bool? s) (← target? c t)))
   | "drop" :: s :: t => do pure (WOp.other (Op.drop (← bool? s) (← target? c t)))
   | [k, s, a, b] => do
